@@ -66,6 +66,8 @@ def plan(tier, seed):
 
 
 def run(check, pool, Task):
+    from . import validate
+    validate.apply(check, ['rtree'])
     fam = plan(check.tier, check.seed)
     cap = 3600 if check.tier == 'thorough' else 900
     check.bounds.update({'rows': 'n <= 4 (quick) / n <= 5 (thorough), n = 0 included', 'dimensions': '1, 2, 3',
